@@ -254,9 +254,33 @@ let cfg_mode file =
   with End_of_file -> ());
   close_in ic
 
+
+
 let rec nat_of_int_ n = if n <= 0 then O else S (nat_of_int_ (n - 1))
 
+(* M <id> <n workers> <n jobs> <events: R<i> | F<i> ...>  : replay of an observed schedule through Multi.run *)
+let multi_mode file =
+  let ic = open_in file in
+  (try
+    while true do
+      let line = input_line ic in
+      match String.split_on_char ' ' line with
+      | "M" :: id :: n :: j :: evs ->
+        let ev s = let i = nat_of_int_ (int_of_string (String.sub s 1 (String.length s - 1))) in if s.[0] = 'R' then Recv i else Finish i in
+        let evs = List.map ev (List.filter (fun s -> s <> "") evs) in
+        (match multi_replay (nat_of_int_ (int_of_string n)) (nat_of_int_ (int_of_string j)) evs with
+         | None -> Printf.printf "%s STUCK\n" id
+         | Some (((term, fin), nres), processed) ->
+           let rec int_of_nat = function O -> 0 | S k -> 1 + int_of_nat k in
+           Printf.printf "%s OK terminal=%b results=%d processed=%d finished=%s\n" id term (int_of_nat nres) (int_of_n processed)
+             (String.concat "," (List.map (fun k -> string_of_int (int_of_nat k)) fin)))
+      | _ -> ()
+    done
+  with End_of_file -> ());
+  close_in ic
+
 let () =
-  if Array.length Sys.argv > 3 && Sys.argv.(3) = "fs" then fs_mode Sys.argv.(1)
+  if Array.length Sys.argv > 3 && Sys.argv.(3) = "multi" then multi_mode Sys.argv.(1)
+  else if Array.length Sys.argv > 3 && Sys.argv.(3) = "fs" then fs_mode Sys.argv.(1)
   else if Array.length Sys.argv > 3 && Sys.argv.(3) = "cfg" then cfg_mode Sys.argv.(1)
   else bytes_mode ()
